@@ -234,12 +234,215 @@ theorem byte_len_even_rounding (be : Bool) (v : PValue) :
     evenUp v.calculateByteLen = evenUp (encodePrimitive be v).2 := by
   cases v <;> simp only [PValue.calculateByteLen, encodePrimitive, clearBit0_join]
 
-/-! ### the default strategy is *not* always valid: a recorded finding
+/-! ### a primitive element: header length = number of value bytes that follow, even, padded per VR -/
 
-`DataSetWriter::write` keeps `last_de` = the Pixel Data header after an encapsulated pixel data
-element has ended; under `SetUndefined` the next `ItemStart` then keeps its recorded explicit length
-while the item's content is rewritten with undefined lengths. The model reproduces the code; the
-independent checker rejects the result. (KNOWN_FINDINGS: stale-item-length-after-pixel-sequence.) -/
+/-- the value field PS3.5 prescribes: raw value, plus one VR-specific padding byte when odd.
+(`textPad`: NUL for UI, space otherwise; `binPad`: space for DA/DT/TM typed values, NUL otherwise;
+numbers under DS/IS are decimal text padded with a space.) -/
+def paddedValue (be : Bool) (vr : VR) (v : PValue) : Bytes :=
+  match v with
+  | .str s => padTo s (textPad vr)
+  | .strs l => padTo (joinBackslash l) (textPad vr)
+  | .empty => []
+  | _ =>
+    if vr = .DS ∨ vr = .IS then padTo ((v.numText?).getD []) 0x20
+    else padTo (encodePrimitive be v).1 (binPad vr)
+
+/-- text in the default repertoire -/
+def Ascii (s : Bytes) : Prop := ∀ b ∈ s, b < 128
+
+def ValueAscii : PValue → Prop
+  | .str s => Ascii s
+  | .strs l => ∀ s ∈ l, Ascii s
+  | _ => True
+
+/-- the DS/IS text path is only defined for the numeric variants (the code has `unreachable!()`) -/
+def NumericUnderDsIs (vr : VR) (v : PValue) : Prop :=
+  (vr = .DS ∨ vr = .IS) → (v.numText?).isSome ∨ v = .empty ∨ (∃ s, v = .str s) ∨ (∃ l, v = .strs l)
+
+theorem padTo_even (bs : Bytes) (p : Nat) : (padTo bs p).length % 2 = 0 := by
+  unfold padTo; split
+  · simp; omega
+  · omega
+
+theorem padTo_length (bs : Bytes) (p : Nat) : (padTo bs p).length = evenUp bs.length := by
+  unfold padTo evenUp; split
+  · simp; omega
+  · omega
+
+theorem textEncode_ascii {s : Bytes} (h : Ascii s) : textEncode s = some s := by
+  unfold textEncode
+  have : s.all (· < 128) = true := by
+    rw [List.all_eq_true]; intro b hb; simpa using h b hb
+  simp [this]
+
+theorem textEncodeAll_ascii : ∀ {l : List Bytes}, (∀ s ∈ l, Ascii s) → textEncodeAll l = some l
+  | [], _ => rfl
+  | s :: r, h => by
+    have h1 := textEncode_ascii (h s (by simp))
+    have h2 := textEncodeAll_ascii (l := r) (fun x hx => h x (by simp [hx]))
+    simp [textEncodeAll, h1, h2]
+
+theorem evenLen_of_even {n : Nat} (he : n % 2 = 0) (hb : n < 4294967295) : evenLen n = n := by
+  unfold evenLen clearBit0; omega
+
+theorem evenLen_eq_evenUp {n : Nat} (hb : n + 1 < 4294967296) : evenLen n = evenUp n := by
+  unfold evenLen clearBit0 evenUp; omega
+
+/-- header with length `len` (even, defined) then nothing else -/
+theorem elementHeader_out {e e' : Enc} (hd : ElemHeader) (heven : hd.len % 2 = 0) (hb : hd.len < 4294967295)
+    (he : e.elementHeader hd = .ok e') :
+    ∃ hb n, encodeHeader e.ts hd = .ok (hb, n) ∧ e'.out = e.out ++ hb ∧ e'.ts = e.ts := by
+  unfold Enc.elementHeader at he
+  have hne : hd.len ≠ undefinedLen := by unfold undefinedLen; omega
+  simp only [hne, if_false, evenLen_of_even heven hb] at he
+  split at he
+  · rename_i bs n henc
+    injection he with he; subst he
+    exact ⟨bs, n, henc, rfl, rfl⟩
+  · cases he
+
+theorem headerAndValue_out {e e' : Enc} (de : ElemHeader) (v : Bytes) (heven : v.length % 2 = 0)
+    (hb : v.length < 4294967295) (he : e.headerAndValue de v = .ok e') :
+    ∃ hbs n, encodeHeader e.ts ⟨de.tag, de.vr, v.length⟩ = .ok (hbs, n) ∧ e'.out = e.out ++ hbs ++ v := by
+  unfold Enc.headerAndValue at he
+  have hm : v.length % 4294967296 = v.length := Nat.mod_eq_of_lt (by omega)
+  split at he
+  · rename_i e1 h1
+    injection he with he; subst he
+    rw [hm] at h1
+    obtain ⟨hbs, n, h2, h3, _⟩ := elementHeader_out ⟨de.tag, de.vr, v.length⟩ heven hb h1
+    exact ⟨hbs, n, h2, by simp [Enc.push, h3]⟩
+  · cases he
+
+/-- **Each defined length equals the number of value bytes that follow and is even; odd values are
+padded with the VR-specific byte.** Whatever the recorded header length, a primitive element is
+written as the header carrying the true (padded) value length, followed by exactly `paddedValue`. -/
+theorem primitive_element_layout {e e' : Enc} (de : ElemHeader) (v : PValue)
+    (hascii : ValueAscii v) (hsize : (paddedValue e.ts.bigEndian de.vr v).length < 4294967295)
+    (he : e.primitiveElement de v = .ok e') :
+    let vb := paddedValue e.ts.bigEndian de.vr v
+    vb.length % 2 = 0 ∧
+    ∃ hbs n, encodeHeader e.ts ⟨de.tag, de.vr, vb.length⟩ = .ok (hbs, n) ∧ e'.out = e.out ++ hbs ++ vb := by
+  intro vb
+  have hdef : vb = paddedValue e.ts.bigEndian de.vr v := rfl
+  have hsz : vb.length < 4294967295 := hsize
+  clear hsize
+  clear_value vb
+  unfold Enc.primitiveElement at he
+  split at he
+  · -- Str
+    rename_i text
+    have hvb : vb = padTo text (textPad de.vr) := hdef
+    unfold Enc.textElement at he
+    rw [textEncode_ascii hascii] at he
+    simp only at he
+    rw [hvb] at hsz ⊢
+    exact ⟨padTo_even _ _, headerAndValue_out de _ (padTo_even _ _) hsz he⟩
+  · -- Strs
+    rename_i texts
+    have hvb : vb = padTo (joinBackslash texts) (textPad de.vr) := hdef
+    unfold Enc.textsElement at he
+    rw [textEncodeAll_ascii hascii] at he
+    simp only at he
+    rw [hvb] at hsz ⊢
+    exact ⟨padTo_even _ _, headerAndValue_out de _ (padTo_even _ _) hsz he⟩
+  · rename_i hnstr hnstrs
+    split at he
+    · -- DS / IS as text
+      rename_i hds
+      unfold Enc.elementAsText at he
+      split at he
+      · -- Empty
+        have hvb : vb = [] := hdef
+        rw [hvb]
+        obtain ⟨hbs, n, h2, h3, _⟩ := elementHeader_out (e := e) ⟨de.tag, de.vr, 0⟩ (by show 0 % 2 = 0; decide) (by show 0 < 4294967295; decide) he
+        exact ⟨rfl, hbs, n, h2, by simp [h3]⟩
+      · rename_i hnempty
+        split at he
+        · cases he
+        · rename_i t ht
+          have hvb : vb = padTo t 0x20 := by
+            rw [hdef]
+            unfold paddedValue
+            split
+            · exact absurd rfl (hnstr _)
+            · exact absurd rfl (hnstrs _)
+            · exact absurd rfl hnempty
+            · simp [hds, ht]
+          rw [hvb] at hsz ⊢
+          have hlen := padTo_length t 0x20
+          rw [hlen] at hsz
+          have hmod : t.length % 4294967296 = t.length := Nat.mod_eq_of_lt (by unfold evenUp at hsz; omega)
+          rw [hmod, evenLen_eq_evenUp (by unfold evenUp at hsz; omega)] at he
+          split at he
+          · cases he
+          · rename_i e1 h1
+            obtain ⟨hbs, n, h2, h3, h4⟩ := elementHeader_out (e := e) ⟨de.tag, de.vr, evenUp t.length⟩
+              (by show evenUp t.length % 2 = 0; unfold evenUp; omega) hsz h1
+            refine ⟨padTo_even _ _, hbs, n, by rw [hlen]; exact h2, ?_⟩
+            split at he
+            · rename_i hodd
+              injection he with he; subst he
+              simp [h3, padTo, hodd]
+            · rename_i hodd
+              injection he with he; subst he
+              simp [h3, padTo, hodd]
+    · -- binary path
+      rename_i hds
+      have hvb : vb = padTo (encodePrimitive e.ts.bigEndian v).1 (binPad de.vr) ∨ (v = .empty ∧ vb = []) := by
+        rw [hdef]
+        unfold paddedValue
+        split
+        · exact absurd rfl (hnstr _)
+        · exact absurd rfl (hnstrs _)
+        · right; exact ⟨rfl, rfl⟩
+        · left; simp [hds]
+      have hvb' : vb = padTo (encodePrimitive e.ts.bigEndian v).1 (binPad de.vr) := by
+        rcases hvb with h | ⟨h1, h2⟩
+        · exact h
+        · rw [h2, h1]; rfl
+      have hcnt := primitive_count e.ts.bigEndian v
+      have hround := byte_len_even_rounding e.ts.bigEndian v
+      rw [hvb'] at hsz ⊢
+      have hlen := padTo_length (encodePrimitive e.ts.bigEndian v).1 (binPad de.vr)
+      rw [hlen, ← hcnt] at hsz
+      rw [← hround] at hsz
+      have hmod : v.calculateByteLen % 4294967296 = v.calculateByteLen :=
+        Nat.mod_eq_of_lt (by unfold evenUp at hsz; omega)
+      rw [hmod] at he
+      split at he
+      · cases he
+      · rename_i e1 h1
+        unfold Enc.elementHeader at h1
+        have hne : v.calculateByteLen ≠ undefinedLen := by unfold undefinedLen; unfold evenUp at hsz; omega
+        simp only [hne, if_false, evenLen_eq_evenUp (by unfold evenUp at hsz; omega : v.calculateByteLen + 1 < 4294967296)] at h1
+        split at h1
+        · rename_i hbs n henc
+          injection h1 with h1; subst h1
+          rw [hround, hcnt] at henc
+          refine ⟨padTo_even _ _, hbs, n, by rw [hlen]; exact henc, ?_⟩
+          generalize hp : encodePrimitive e.ts.bigEndian v = p at he hcnt
+          obtain ⟨bs, cnt⟩ := p
+          simp only at he hcnt
+          subst hcnt
+          split at he
+          · rename_i hodd
+            injection he with he; subst he
+            have : bs.length % 2 = 1 := by omega
+            simp [Enc.push, padTo, this]
+          · rename_i hodd
+            injection he with he; subst he
+            have : ¬ bs.length % 2 = 1 := by omega
+            simp [Enc.push, padTo, this]
+        · cases h1
+
+/-! ### regression witness of a repaired defect (fix f2b04a4)
+
+Before the fix `DataSetWriter::write` kept `last_de` = the Pixel Data header after an encapsulated
+pixel data element had ended; under `SetUndefined` the next `ItemStart` then kept its recorded
+explicit length while the item's content was rewritten with undefined lengths (structurally invalid
+output). The tree below is the witness found by the correspondence run (case #0 of the runner). -/
 
 def witnessTree : Elems :=
   .cons (.seq ⟨0x0008, 0x1140⟩ undefinedLen
@@ -248,9 +451,9 @@ def witnessTree : Elems :=
 
 def explicitLECfg : Valid.Cfg := ⟨true, false, fun _ _ => false⟩
 
-theorem set_undefined_stale_item_length_witness :
+theorem set_undefined_witness_valid :
     ∃ bs, writeDataset .explicitLE .setUndefined witnessTree = .ok bs ∧
-      Valid.validPS35 explicitLECfg bs = false := by
+      Valid.validPS35 explicitLECfg bs = true := by
   refine ⟨_, rfl, ?_⟩
   decide +kernel
 
